@@ -598,6 +598,70 @@ def check_end_input(ck, prog, rule="C06-ENDIN"):
               key="ENDIN:microlzma_decode:" + mode)
 
 
+def check_bcj_canon(ck, prog, rule="C06-BCJCANON"):
+    """lzma_str_to_filters() always allocates a zeroed lzma_options_bcj for a BCJ filter while a chain given as structures
+    (or read back from a Block Header) uses options == NULL for the same thing.  Both forms yield the same bytes only if the
+    Filter Properties encoder treats start_offset == 0 like a missing structure: in lzma_simple_props_size() and
+    lzma_simple_props_encode() there is a test of start_offset whose zero side reaches neither the size 4 nor the write."""
+    ck.rule(rule, "BCJ Filter Properties: start_offset == 0 is encoded like options == NULL (no properties)")
+    for nm, what in (("lzma_simple_props_size", "const4"), ("lzma_simple_props_encode", "write")):
+        f = prog.fn(nm, "simple_encoder.c")
+        ck.saw_function(f)
+
+        def forbidden(bid):
+            for e in f.blocks[bid].elems:
+                if e is None:
+                    continue
+                d = ex.deref(e)
+                if what == "const4" and d.get("k") == "const" and d.get("v") == 4:
+                    return True
+                if what == "write" and any((c.get("fn") or "").startswith("write32") or c.get("fn") == "memcpy"
+                                           for c in ex.calls(e, into_refs=False)):
+                    return True
+            return False
+        if not any(forbidden(b) for b in f.blocks):
+            raise AnalysisBroken("%s: the non-empty properties case was not found" % nm)
+        tests = []
+        for b in f.blocks.values():
+            c = ex.strip(b.term["cond"]) if b.term and "cond" in b.term else None
+            if c is None or len(b.succs) != 2 or "start_offset" not in ex.show(c):
+                continue
+            neg = False
+            while c.get("k") in ("un", "paren"):
+                if c.get("k") == "un" and c["op"] == "!":
+                    neg = not neg
+                elif c.get("k") == "un":
+                    break
+                c = ex.strip(c["e"])
+            if c.get("k") == "bin" and c["op"] in ("==", "!=") and (ex.is_const(c["l"], 0) or ex.is_const(c["r"], 0)):
+                zero_true = (c["op"] == "==") != neg
+            elif c.get("k") == "mem":
+                zero_true = neg
+            else:
+                continue
+            tests.append((b.id, b.succs[0] if zero_true else b.succs[1]))
+        bad = None
+        if not tests:
+            bad = "there is no test of start_offset against zero"
+        for tb, z in tests:
+            seen, st = set(), [z]
+            while st:
+                x = st.pop()
+                if x is None or x in seen:
+                    continue
+                seen.add(x)
+                if forbidden(x):
+                    bad = "the zero side of the test of start_offset reaches the non-empty properties case"
+                    break
+                st.extend(f.blocks[x].succs)
+        ck.ob(rule, nm, bad is None, common.where(f),
+              "%s: start_offset == 0 takes the same path as options == NULL" % nm if bad is None else
+              "%s(): %s: a BCJ filter parsed from a filter string (zeroed options structure) gets a 4-byte Filter Properties "
+              "field while the same chain given with options == NULL gets none, so the same data and options encode to "
+              "different bytes" % (nm, bad), key="BCJCANON:%s" % nm)
+    ck.floor(rule, 2)
+
+
 def check_strmap(ck, prog, rule="C06-STRMAP"):
     """lzma_str_from_filters(LZMA_STR_ENCODER) prints the first strfy_encoder entries of a filter's option map, and
     lzma_str_to_filters() parses any entry of the map: the textual form carries the whole structure (so that encoding
@@ -672,6 +736,8 @@ def run(ck):
     from . import C15
     ck.rule("C06-BCJEND", "the BCJ wrapper consults end_was_reached after draining its buffer and before asking the next coder for more")
     C15.check_end_after_drain(ck, prog, rule="C06-BCJEND")
+    C15.check_compact(ck, prog, rule="C06-BCJEND")
+    C15.check_eof_needs_input(ck, prog, rule="C06-BCJEND")
     check_crc(ck, prog)
     check_det(ck, prog)
     check_slice(ck, prog)
@@ -709,6 +775,14 @@ def run(ck):
     check_encreset(ck, prog, "C06-ENCRESET")
     check_end_input(ck, prog)
     check_strmap(ck, prog)
+    check_bcj_canon(ck, prog)
+    # the file info decoder is re-entered after LZMA_SEEK_NEEDED like any other coder after a short buffer: its position
+    # bookkeeping must not be applied twice (rule shared with C13)
+    from . import C13 as _C13
+    _C13.check_seek_state(ck, prog, rule="C06-SEEKSTATE")
+    # pending output of an LZMA2 chunk is produced by the next call whether or not that call brings input (C11)
+    from . import C11 as _C11
+    _C11.check_no_input_progress(ck, prog, rule="C06-NOINPUT")
     # the Check value does not depend on how update() calls slice the data (C14 rules)
     from . import C14 as _C14
     _C14.check_sha(ck, prog)
